@@ -239,7 +239,7 @@ def _is_imag(e):
 def handler_call_sites(ck, rule, roles):
     """every call of the overflow handler anywhere passes the rounded value (C04.R1 'rounded element')."""
     prog = ck.prog
-    h, rnd = A.ovf_handler(prog), A.rounder(prog)
+    h, rnd = A.flag_writer(prog), A.rounder(prog)
     n = 0
     for f in prog.all_funcs():
         if f.module != "objects":
@@ -257,8 +257,25 @@ def handler_call_sites(ck, rule, roles):
     for pf in fpaths(prog, f):
         for ce in pf.calls:
             if prog.resolve_call(f, ce.raw) == h.qualname:
-                v = actual(ce.call, h, roles["val"])
-                e, casts = peel(v) if v is not None else (None, [])
+                if roles.get("val") is not None and h.node.args.vararg is not None and roles["val"] == h.node.args.vararg.arg:
+                    # *parts: every value array handed to the range tests is a rounding result
+                    npos = len([p for p in h.params if p != "self"])
+                    extra = list(ce.call.args[npos:])
+                    badv = [a for a in extra if not (isinstance(peel(a)[0], ast.Call) and prog.resolve_call(f, peel(a)[0]) == rnd.qualname)]
+                    if extra and not badv:
+                        continue
+                    v = badv[0] if badv else None
+                    e = None
+                elif roles.get("val") is None:
+                    # the handler's value parameter could not be identified (e.g. *parts): the rounded value must at least be among the actuals
+                    acts = list(ce.call.args) + [k.value for k in ce.call.keywords]
+                    if any(isinstance(peel(a)[0], ast.Call) and prog.resolve_call(f, peel(a)[0]) == rnd.qualname for a in acts):
+                        continue
+                    v = acts[-1] if acts else None
+                    e = None
+                else:
+                    v = actual(ce.call, h, roles["val"])
+                    e, casts = peel(v) if v is not None else (None, [])
                 if not (isinstance(e, ast.Call) and prog.resolve_call(f, e) == rnd.qualname):
                     bad_ += 1
                     ck.bad(rule, f, "flags are decided on the rounded value", "handler value argument %s" % (src(v)[:100] if v is not None else None), ce.stmt,
